@@ -16,7 +16,7 @@ CLOCK = vt.CLOCK
 CMD_T, DATA_T, CONN_T = 10, 25, 5
 
 
-STAGE_NO = {'banner': 1, 'ehlo': 2, 'helo': 3, 'mail': 4, 'rcpt': 5, 'data': 6, 'eod': 7, 'rset': 8, 'quit': 9}
+STAGE_NO = {'banner': 1, 'ehlo': 2, 'helo': 3, 'mail': 4, 'rcpt': 5, 'data': 6, 'eod': 7, 'rset': 8, 'quit': 9, 'auth': 0, 'starttls': 0}
 
 
 class Down(object):
@@ -24,8 +24,9 @@ class Down(object):
     banner, ehlo, helo, mail, rcpt (list per recipient), data, eod (list for LMTP), rset, quit.
     action: int reply code | 'malformed' | 'disconnect' | 'stall'."""
 
-    def __init__(self, drv, script, lmtp, pipelining, conn_id):
+    def __init__(self, drv, script, lmtp, pipelining, conn_id, auth=False, starttls=None):
         self.drv, self.script, self.lmtp, self.pipelining, self.conn = drv, script, lmtp, pipelining, conn_id
+        self.auth, self.starttls = auth, starttls       # advertise AUTH PLAIN / STARTTLS ('required' | 'optional' | None)
         self.inbuf = b''
         self.out = b''
         self.ev = Event()
@@ -83,7 +84,8 @@ class Down(object):
         if a >= 400:          # identity of this failure reply (queue scenarios group bounces by it)
             text += ' rid%d' % (a * 10 + STAGE_NO.get(stage, 0))
         if stage in ('ehlo',) and a == 250:
-            lines = ['downstream'] + (['PIPELINING'] if self.pipelining else []) + ['8BITMIME', 'SMTPUTF8']
+            lines = ['downstream'] + (['PIPELINING'] if self.pipelining else []) + (['AUTH PLAIN'] if self.auth else []) + \
+                    (['STARTTLS'] if self.starttls else []) + ['8BITMIME', 'SMTPUTF8']
             self.out += ''.join('250%s%s\r\n' % ('-' if k < len(lines) - 1 else ' ', ln) for k, ln in enumerate(lines)).encode()
         else:
             self.out += ('%d %s\r\n' % (a, text)).encode()
@@ -128,6 +130,11 @@ class Down(object):
                 elif verb == b'RSET':
                     self.act('rset', 0)
                     self.acc = []
+                elif verb == b'STARTTLS':
+                    # only refusals are scripted: a completed handshake needs a real socket (that is C08's harness)
+                    self.act('starttls' if self.starttls == 'required' else 'starttls_opt', 0, default=454)
+                elif verb == b'AUTH':
+                    self.act('auth', 0, default=235)
                 elif verb == b'QUIT':
                     self.act('quit', 0, default=221)
                 else:
@@ -166,7 +173,7 @@ class Down(object):
 
 
 class RelayRun(object):
-    def __init__(self, lmtp, pipelining, scripts, pool_size=None, idle_timeout=None, connect=None):
+    def __init__(self, lmtp, pipelining, scripts, pool_size=None, idle_timeout=None, connect=None, auth=False, starttls=None):
         """scripts: list of per-connection scripts (k-th connection uses scripts[k], last one repeated)"""
         CLOCK.reset(1000.0)
         self.ev = []
@@ -175,8 +182,14 @@ class RelayRun(object):
         self.nconn = 0
         self.connect = connect or {}
         cls = StaticLmtpRelay if lmtp else StaticSmtpRelay
+        self.auth, self.starttls = auth, starttls
+        extra = {}
+        if auth:
+            extra['credentials'] = ('user', 'secret')
+        if starttls == 'required':
+            extra['tls_required'] = True
         self.relay = cls('198.51.100.7', 25, pool_size=pool_size, socket_creator=self.creator, ehlo_as='relay.example',
-                         connect_timeout=CONN_T, command_timeout=CMD_T, data_timeout=DATA_T, idle_timeout=idle_timeout)
+                         connect_timeout=CONN_T, command_timeout=CMD_T, data_timeout=DATA_T, idle_timeout=idle_timeout, **extra)
         self.greenlets = []
 
     def log(self, **kw):
@@ -194,7 +207,7 @@ class RelayRun(object):
             raise socket.error(errno.ECONNREFUSED, 'refused')
         if act == 'stall':
             Event().wait()
-        return Down(self, self.scripts[min(k, len(self.scripts) - 1)], self.lmtp, self.pipelining, k)
+        return Down(self, self.scripts[min(k, len(self.scripts) - 1)], self.lmtp, self.pipelining, k, auth=self.auth, starttls=self.starttls)
 
     def attempt(self, req, nrcpt, sender=None, addrs=None):
         """addrs: optional list (one entry per recipient) of address numbers, so that an address can be listed twice"""
